@@ -31,7 +31,17 @@ RULE = (
     'any axis position plus a variable without it and the 1-D coordinate '
     'variable; interpDimension(dim, targets, extrapolate=...) must equal '
     'the reference applied along that axis (1e-9 x scale), the dimension '
-    'gets length m, untouched variables are unchanged.  coordkey: '
+    'gets length m, untouched variables are unchanged.  Variables are f8, '
+    'f4, i4 or i2 with arbitrary or linear (a*x+b per column) profiles; '
+    'the library keeps a variable\'s dtype (copyVariable + assignment casts '
+    'the float result), so integer variables are compared with the float '
+    'reference at +-1 unit (truncation/rounding of the cast), f4 at 1e-5 x '
+    'scale; the dtype itself must be kept.  interpvars (core._functions, '
+    'functional form): same files, weights = getinterpweights(xs, targets)'
+    '.T in the documented (new, old) layout with new != old, oracle = those '
+    'weights applied along the variable\'s axis (rank 1-4, any position; '
+    'same tolerances), dimension length m, variables without the dimension '
+    'unchanged.  coordkey: '
     'multi-dimensional coordinate variable with the data variable\'s '
     'dimensions, each column monotonic in its own direction; result per '
     'column equals the reference for in-range targets.  sigma: '
@@ -172,18 +182,48 @@ def case_interpdim(draw):
         od = list(draw(st.permutations(others)))[:k]
         pos = draw(st.integers(0, len(od)))
         dims = od[:pos] + ['z'] + od[pos:]
-        size = int(np.prod([n if d == 'z' else olen[d] for d in dims]))
-        vs.append(dict(name='v%d' % i, dims=dims, data=_field(draw, size),
-                       dtype=draw(st.sampled_from(['f8', 'f8', 'f4']))))
+        shape = [n if d == 'z' else olen[d] for d in dims]
+        size = int(np.prod(shape))
+        dtype = draw(st.sampled_from(['f8', 'f8', 'f4', 'i4', 'i4', 'i2']))
+        if dtype in ('i4', 'i2'):
+            data = draw(st.lists(st.integers(-400, 400), min_size=size,
+                                 max_size=size))
+        else:
+            data = _field(draw, size)
+        profile = draw(st.sampled_from(['arbitrary', 'arbitrary', 'linear']))
+        if profile == 'linear':
+            # a*x+b along z (x in eighths, so integer for integer dtypes),
+            # with a different offset in every column
+            a = draw(st.integers(-6, 6)) or 3
+            arr = np.array(data, dtype='d').reshape(shape)
+            ax = dims.index('z')
+            xk = np.array([round(x * 8) for x in xs], dtype='d')
+            sh = [1] * len(shape)
+            sh[ax] = n
+            base = np.take(arr, [0], axis=ax)
+            arr = base + a * xk.reshape(sh)
+            data = [int(v) if dtype in ('i4', 'i2') else float(v)
+                    for v in arr.ravel()]
+        vs.append(dict(name='v%d' % i, dims=dims, data=data, dtype=dtype,
+                       profile=profile))
     extra = None
     if others and draw(st.booleans()):
         d = others[0]
         extra = dict(name='keep', dims=[d], data=_field(draw, olen[d]),
                      dtype='f8')
-    return dict(kind='interpdim', xs=xs, nxs=t, mode=mode,
+    kind = draw(st.sampled_from(['interpdim', 'interpdim', 'interpvars']))
+    if kind == 'interpvars' and len(t) == n:
+        # interpvars finds the old axis of the (new, old) weight matrix by
+        # its length: new == old is outside its domain
+        t = t[:-1] if len(t) > 1 else t + [t[-1] + (1 if t[-1] >= t[0]
+                                                    else -1) * 0.0625]
+        if len(t) == n:
+            t = t + [t[-1] + 0.0625]
+    return dict(kind=kind, xs=xs, nxs=t, mode=mode,
                 extrapolate=draw(st.booleans()), olen=olen, vars=vs,
                 extra=extra, order=draw(st.sampled_from(['z-first',
-                                                         'z-last'])))
+                                                         'z-last'])),
+                unlimited=draw(st.booleans()))
 
 
 @st.composite
@@ -281,7 +321,8 @@ def case_sigma(draw):
 
 def strategy(tier):
     return st.one_of(case_weights(), case_weights(), case_interpdim(),
-                     case_coordkey(), case_sigma(), case_sigma())
+                     case_interpdim(), case_coordkey(), case_sigma(),
+                     case_sigma())
 
 
 # ------------------------------------------------------------------ checks
@@ -385,44 +426,164 @@ def check_weights(spec, r):
                klass=klass)
 
 
-def check_interpdim(spec, r):
+_CODES = {'f8': 'd', 'f4': 'f', 'i4': 'i', 'i2': 'h'}
+
+
+def _build_interp_file(spec):
     from PseudoNetCDF import PseudoNetCDFFile
     xs = spec['xs']
-    t = spec['nxs']
-    n, m = len(xs), len(t)
-    ex = bool(spec['extrapolate'])
+    n = len(xs)
     olen = spec['olen']
     f = PseudoNetCDFFile()
     dnames = list(olen)
     order = (['z'] + dnames) if spec['order'] == 'z-first' else \
         (dnames + ['z'])
     for d in order:
-        f.createDimension(d, n if d == 'z' else olen[d])
+        dim = f.createDimension(d, n if d == 'z' else olen[d])
+        if d == 'z' and spec.get('unlimited'):
+            dim.setunlimited(True)
     cv = f.createVariable('z', 'd', ('z',))
     cv[:] = np.array(xs, dtype='d')
     arrays = {}
     for v in spec['vars'] + ([spec['extra']] if spec['extra'] else []):
         shape = tuple(n if d == 'z' else olen[d] for d in v['dims'])
-        code = {'f8': 'd', 'f4': 'f'}[v['dtype']]
+        code = _CODES[v['dtype']]
         arr = np.array(v['data'], dtype=code).reshape(shape)
         var = f.createVariable(v['name'], code, tuple(v['dims']))
         var[...] = arr
         arrays[v['name']] = arr
-    r.label('kind:interpdim', 'extrapolate:%s' % ex, 'mode:' + spec['mode'])
-    _direction_labels(r, xs, t)
-    co, il, out = _placement(xs, t)
-    r.label(*[k for k, b in (('targets:coincident', co),
-                             ('targets:interleaved', il),
-                             ('targets:outside', out)) if b])
+    return f, arrays
+
+
+def _var_labels(r, spec):
     nonlead = False
     for v in spec['vars']:
         ax = v['dims'].index('z')
         r.label('rank:%d' % len(v['dims']),
                 'axis:' + ('leading' if ax == 0 else
                            ('last' if ax == len(v['dims']) - 1 else
-                            'middle')))
+                            'middle')),
+                'vdtype:' + v['dtype'],
+                'profile:' + v.get('profile', 'arbitrary'))
+        if v['dtype'] in ('i4', 'i2') and \
+                np.abs(np.array(v['data'])).max() >= 8:
+            r.label('integer-variable-nontrivial')
         if ax > 0:
             nonlead = True
+    return nonlead
+
+
+def _cmp_interp(r, clause, name, v, got_var, want, arrays, klass, what):
+    """compare a library variable with the float reference `want`; integer
+    variables keep their dtype in the library (the float result is cast on
+    assignment), so they are compared after that cast with +-1 unit for
+    truncation/rounding"""
+    got_arr = np.asarray(got_var[...])
+    if got_arr.dtype != np.dtype(_CODES[v['dtype']]):
+        r.fail('var-dtype', 'variable %s has dtype %s, the source variable '
+               '%s' % (name, got_arr.dtype, _CODES[v['dtype']]), klass=klass)
+        return
+    got = got_arr.astype('d')
+    if got.shape != want.shape:
+        r.fail('var-shape', 'variable %s has shape %r, expected %r' % (
+            name, got.shape, want.shape), klass=klass)
+        return
+    sc = _scale(arrays[name], want)
+    if v['dtype'] in ('i4', 'i2'):
+        tolv = 1.0 + 1e-9 * sc
+        klass = klass + '/int'
+    elif v['dtype'] == 'f4':
+        tolv = 1e-5 * sc
+    else:
+        tolv = TOL * sc
+    if not (np.abs(got - want) <= tolv).all():
+        bad = np.argwhere(~(np.abs(got - want) <= tolv))[0]
+        r.fail(clause, 'variable %s%r (%s): at %r got %r, reference %r %s' % (
+            name, tuple(v['dims']), v['dtype'], tuple(bad.tolist()),
+            got[tuple(bad)], want[tuple(bad)], what), klass=klass)
+
+
+def check_interpvars(spec, r):
+    """core._functions.interpvars(f, weights(new, old), dimension): the
+    functional form; weights from getinterpweights (transposed to the
+    documented (new, old) layout); oracle = those weights applied along the
+    variable's axis"""
+    from PseudoNetCDF.core._functions import interpvars
+    from PseudoNetCDF.coordutil import getinterpweights
+    xs = spec['xs']
+    t = spec['nxs']
+    n, m = len(xs), len(t)
+    ex = bool(spec['extrapolate'])
+    f, arrays = _build_interp_file(spec)
+    r.label('kind:interpvars', 'extrapolate:%s' % ex, 'mode:' + spec['mode'])
+    _direction_labels(r, xs, t)
+    nonlead = _var_labels(r, spec)
+    co, il, out = _placement(xs, t)
+    r.nontrivial = bool(il or nonlead or xs[0] > xs[-1])
+    with np.errstate(all='ignore'):
+        exc, W = attempt(getinterpweights, np.array(xs, dtype='d'),
+                         np.array(t, dtype='d'), extrapolate=ex)
+    if exc is not None or not np.isfinite(np.asarray(W)).all():
+        r.label('weights-unavailable')
+        return
+    W = np.asarray(W, dtype='d')          # (old, new)
+    with np.errstate(all='ignore'):
+        exc, o = attempt(interpvars, f, W.T.copy(), 'z')
+    if exc is not None:
+        r.label('raised', 'raised:' + exc_where(exc))
+        return
+    klass = 'interpvars'
+    if 'z' not in o.dimensions or len(o.dimensions['z']) != m:
+        r.fail('dim-length', 'interpvars: dimension z has length %s, '
+               'expected %d' % (len(o.dimensions['z']) if 'z' in o.dimensions
+                                else None, m), klass=klass)
+        return
+    if bool(o.dimensions['z'].isunlimited()) != bool(spec.get('unlimited')):
+        r.label('unlimited-flag-changed')
+    for v in spec['vars'] + [dict(name='z', dims=['z'], dtype='f8')]:
+        name = v['name']
+        if name not in o.variables:
+            r.fail('var-missing', 'interpvars: variable %s missing' % name,
+                   klass=klass)
+            continue
+        src = np.array(xs, dtype='d') if name == 'z' else \
+            arrays[name].astype('d')
+        ax = v['dims'].index('z')
+        want = np.moveaxis(np.tensordot(np.moveaxis(src, ax, -1), W,
+                                        axes=([-1], [0])), -1, ax)
+        ov = o.variables[name]
+        if tuple(ov.dimensions) != tuple(v['dims']):
+            r.fail('var-dims', 'interpvars: variable %s has dimensions %r, '
+                   'expected %r' % (name, tuple(ov.dimensions),
+                                    tuple(v['dims'])), klass=klass)
+            continue
+        arrs = dict(arrays)
+        arrs['z'] = src
+        _cmp_interp(r, 'interpvars-values', name, v, ov, want, arrs,
+                    klass + '/rank%d' % len(v['dims']),
+                    '(weights applied along axis %d; xs=%r, targets=%r)' % (
+                        ax, xs, t))
+    if spec['extra']:
+        name = spec['extra']['name']
+        if name not in o.variables or not np.array_equal(
+                np.asarray(o.variables[name][...]), arrays[name]):
+            r.fail('untouched-changed', 'interpvars: variable %s without '
+                   'the interpolated dimension changed' % name, klass=klass)
+
+
+def check_interpdim(spec, r):
+    xs = spec['xs']
+    t = spec['nxs']
+    n, m = len(xs), len(t)
+    ex = bool(spec['extrapolate'])
+    f, arrays = _build_interp_file(spec)
+    r.label('kind:interpdim', 'extrapolate:%s' % ex, 'mode:' + spec['mode'])
+    _direction_labels(r, xs, t)
+    co, il, out = _placement(xs, t)
+    r.label(*[k for k, b in (('targets:coincident', co),
+                             ('targets:interleaved', il),
+                             ('targets:outside', out)) if b])
+    nonlead = _var_labels(r, spec)
     r.nontrivial = bool(il or nonlead or xs[0] > xs[-1])
     with np.errstate(all='ignore'):
         exc, out_f = attempt(f.interpDimension, 'z', np.array(t, dtype='d'),
@@ -449,20 +610,10 @@ def check_interpdim(spec, r):
                    (name, tuple(ov.dimensions), tuple(v['dims'])),
                    klass=klass)
             continue
-        got = np.asarray(ov[...], dtype='d')
-        if got.shape != want.shape:
-            r.fail('var-shape', 'variable %s has shape %r, expected %r' % (
-                name, got.shape, want.shape), klass=klass)
-            continue
-        rt = TOL if v['dtype'] == 'f8' else 1e-5
-        sc = _scale(arrays[name], want)
-        if not (np.abs(got - want) <= rt * sc).all():
-            bad = np.argwhere(~(np.abs(got - want) <= rt * sc))[0]
-            r.fail('interp-values', 'variable %s%r interpolated along axis '
-                   '%d: at %r got %r, reference %r (xs=%r, targets=%r)' % (
-                       name, tuple(v['dims']), ax, tuple(bad.tolist()),
-                       got[tuple(bad)], want[tuple(bad)], xs, t),
-                   klass=klass + '/axis%s' % ('0' if ax == 0 else '>0'))
+        _cmp_interp(r, 'interp-values', name, v, ov, want, arrays,
+                    klass + '/axis%s' % ('0' if ax == 0 else '>0'),
+                    '(interpolated along axis %d; xs=%r, targets=%r)' % (
+                        ax, xs, t))
     if spec['extra']:
         name = spec['extra']['name']
         if name not in out_f.variables or not np.array_equal(
@@ -718,6 +869,8 @@ def check_case(spec):
         check_weights(spec, r)
     elif kind == 'interpdim':
         check_interpdim(spec, r)
+    elif kind == 'interpvars':
+        check_interpvars(spec, r)
     elif kind == 'coordkey':
         check_coordkey(spec, r)
     elif kind == 'sigma':
